@@ -375,6 +375,7 @@ var defCarriers = func() []struct{ Src, In string } {
 	defs := []string{"def zz: nofunc;", "def zz: $nope;", "def zz: 1;", "def zz: .a;", "def zz(f): f;", "def zz: zz;", "def zz: def yy: nofunc2; 1;", "def zz: break $nolabel;"}
 	shapes := []string{
 		"(D .a) = 1", "(D .a.b) = 1", "(D .[0]) = 1", "(D .a) |= 1", "(D .a) += 1", "((D .a)) = 1", "(D (D .a)) = 1", ".a = (D 1)", "(D .a[1:]) = [1]", "del(D .a)", "path(D .a)",
+		".[D 1]", ".[D \"a\"]", ".[D 1:]", ".[:D 1]", ".[D 1:D 2]", ".a[D 0]?", "path(.[D \"a\"])", ".[D \"a\"] = 1", "[D 1]", "{a: D 1}?", "(D 1)", "[D 1, 2]",
 		"[(D 1), 2]", "[1, (D 2)]", "[(D 1)]", "{a: (D 1)}", "{(D \"a\"): 1}", "{a: 1, b: (D 2)}", ".[(D \"a\")]", ".[(D 0)]", ".[(D 1):]", ".[:(D 1)]", "-(D 1)", "+(D 1)", "(D 1) as $x | $x", "(D .) as [$x] | $x",
 		"if (D true) then 1 else 2 end", "if . then (D 1) else (D 2) end", "if (D empty) then 1 else 2 end", "def w(f): f; w(D .)", "def w(f): f; w(D 1)", "def w(f): f; w(D .a)", "def w: (D .) | w?; 1", "try (D 1) catch .", "(D 1), (D 2)", "(D 1) // 2", "label $l | (D 1)", "reduce (D .) as $x (0; 1)", "first(D 1)", "(D .a)?", "(D .)[0]?", "(D \"a\")[0:1]", "@json \"\\(D 1)\"", "\"\\(D 1)\"", "(D .) | zz?",
 	}
@@ -449,6 +450,51 @@ var computedKeys = func() []struct{ Src, In string } {
 }()
 
 func init() { directed = append(directed, computedKeys...) }
+
+// every position whose evaluation the compiler brackets with expbegin/expend (conditions, bind and
+// reduce sources, value arguments, keys, bounds), filled with a call of a function whose body
+// navigates, inside every path context: whatever the compiler proves about the bracket being
+// needless must hold for calls of jq-defined functions too
+var guardedPositions = func() []struct{ Src, In string } {
+	var out []struct{ Src, In string }
+	defs := []string{
+		"def k: .key;", "def k: .flag;", "def k: .[0];", "def k: .key == \"a\";", "def k: .x | length > 0;", "def k: .key?;", "def k: (.key, .flag);", "def k: first(.key);", "def k: def kk: .flag; kk;", "def kf(f): f; def k: kf(.key);", "def k: .key // .flag;",
+		"def k: getpath([\"key\"]);", "def k: .key as $v | $v;", "def k: any;", "def k: has(\"x\");", "def k: .x.y;", "def k: .key | not;", "def k: try .flag catch false;", "def k: [.key] | first;", "def k: .. | booleans;",
+	}
+	poss := []string{
+		"if k then .x else .y end", "if .nokey then .x elif k then .y else .z end", "if k then .x end", "if k then .x elif k then .y end", "if (k | not) then .x else .y end", "if k and k then .x else .y end", "if k or .flag then .x else .y end",
+		"k as $v | .x", "k as [$v] | .x", "k as {a: $v} | .x", "k as $v | if $v then .x else .y end", "reduce k as $v (.; .x)", "foreach k as $v (.; .x)", "foreach k as $v (.; .x; .y)", "def g($p): .x; g(k)", "def g($p): if $p then .x else .y end; g(k)", "def g(p): .x; g(k)",
+		"limit(k | if . then 1 else 2 end; .x, .y)", ".[k | tostring]", "select(k)", ".x | select(k)", "first(select(k) | .x)", "\"\\(k)\" as $v | .x", "[k] as $v | .x", "{a: k} as $v | .x", "(k, k) as $v | .x", "k // .x", ".[if k then \"x\" else \"y\" end]", "(.x, .y) | select(k)",
+		"label $l | if k then .x else break $l end", "try (if k then .x else error end) catch .y", "if k then .x else .y end | if k then .x else .y end", ".x | if k then .y else .z end", "if k then (.x | if k then .y else . end) else .y end",
+	}
+	ctxs := []string{"U", "path(U)", "[paths(U)]", "(U) = 1", "(U) |= .", "del(U)", "pick(U)", "path(U) as $p | getpath($p)", "(U) += 1", "def w(f): path(f); w(U)", "path(first(U))", "[path(U)] | length"}
+	ins := []string{`{"key":"a","flag":true,"x":{"y":1,"key":"b","flag":false,"x":{"y":2}},"y":{"x":1},"z":0}`, `{"key":null,"flag":false,"x":{"y":[1]},"y":2}`, `[{"y":1},{"x":2}]`, `null`}
+	n := 0
+	for _, d := range defs {
+		for _, ps := range poss {
+			for _, c := range ctxs {
+				n++
+				if n%4 != 0 {
+					continue
+				}
+				out = append(out, struct{ Src, In string }{d + " try (" + strings.ReplaceAll(c, "U", ps) + ") catch \"E\"", ins[n%len(ins)]})
+			}
+		}
+	}
+	// builtins defined in jq are compiled at their first use: the second use is a plain call
+	for _, b := range []string{"any", "all", "first", "last", "not", "(.[0] | not)", "isvalid(.x)", "(to_entries | length > 0)", "(keys | length > 1)", "has(\"x\")", "(.x | values)", "add", "min", "(paths | length > 0)", "isempty(.x)", "(.x | booleans)", "in({})?", "inside([])?", "(.x | objects)", "ascii_downcase?"} {
+		for _, c := range []string{"B, path(if B then .x else .y end)", "B as $w | path(if B then .x else .y end)", "path(if B then .x else .y end)", "B, ((if B then .x else .y end) = 1)", "B, path(B as $v | .x)", "B, path(select(B))", "B, path(reduce B as $v (.; .x))", "B, del(if B then .x else .y end)", "[B, B] | length, path(if B then . else . end)", "B, [paths(if B then .x else .y end)]"} {
+			for k, in := range []string{`{"x":{"y":1},"y":2}`, `[true,{"x":1}]`, `{"x":null}`} {
+				if (len(b)+len(c)+k)%2 == 0 {
+					out = append(out, struct{ Src, In string }{"try (" + strings.ReplaceAll(c, "B", b) + ") catch \"E\"", in})
+				}
+			}
+		}
+	}
+	return out
+}()
+
+func init() { directed = append(directed, guardedPositions...) }
 
 var directed = []struct{ Src, In string }{
 	{`.[1:2], .[1.5:2.5], .[-1:], .[null:1], .[1:null], .[:-1], .[10:], .[-10:2], .[1:1], .[2:1]`, `[1,2,3,4]`},
